@@ -7,6 +7,7 @@ fn main() {
     let mut c = yara_x::Compiler::new();
     if std::env::var_os("PROBE_RELAXED").is_some() { c.relaxed_re_syntax(true); }
     if let Ok(m) = std::env::var("PROBE_IGNORE") { c.ignore_module(m); }
+    if std::env::var_os("PROBE_SLOW").is_some() { c.error_on_slow_pattern(true); }
     // sources separated by a line `//NS name` go to separate namespaces
     let text = String::from_utf8_lossy(&src).to_string();
     if text.contains("//NS ") {
